@@ -83,3 +83,15 @@ func New(
 
 	return &deprecatedStateBackend{baseState: base}
 }
+
+// rollbackFilterOnError discards the in-memory running event filter when the
+// database update it was modified for did not commit. The filter is updated inside
+// the update callback, i.e. before the batch is written; if the write (or any later
+// step) fails, the window would otherwise describe a block that was never stored
+// (or miss one that was never reverted) until the next restart.
+func (b *baseState) rollbackFilterOnError(filterUpdated *bool, err error) error {
+	if err != nil && *filterUpdated {
+		b.runningFilter.Invalidate()
+	}
+	return err
+}
